@@ -863,6 +863,9 @@ class Interp:
         if isinstance(base, Seq):
             return base if is_slice else base.elem
         if isinstance(base, Lst):
+            if idx == EID and not is_slice:
+                # a list is addressed by POSITION; edge ids are positions only while no hyperedge was ever removed (K-POS)
+                self.site(fr, "K-POS", node, "list[EID]", Mismatch(f"a list ({base!r}) is indexed by an edge id: ids equal list positions only as long as no hyperedge has been removed - afterwards the entry of a different hyperedge is read (or an IndexError is raised)"))
             return Lst(base.elem, base.sorted) if is_slice else base.elem
         if isinstance(base, Tup):
             if isinstance(idx, Const) and isinstance(idx.value, int) and not isinstance(idx.value, bool):
